@@ -26,4 +26,17 @@ def rejectAllPolicy : FilterPolicy where
   createFilter := fun keys => List.replicate (keys.length + 8) 0 ++ [1]
   keyMayMatch := fun _ _ => false
 
+/-- a lying policy whose on-disk name is a PROPER PREFIX of the bloom policy's name (LevelDB's original
+    "leveldb.BuiltinBloomFilter"): the metaindex lookup must compare names for equality, not by prefix -/
+def rejectAllPrefixPolicy : FilterPolicy where
+  name := "leveldb.BuiltinBloomFilter"
+  createFilter := fun keys => List.replicate (keys.length + 8) 0 ++ [1]
+  keyMayMatch := fun _ _ => false
+
+/-- … and one whose name EXTENDS the bloom policy's name -/
+def rejectAllExtPolicy : FilterPolicy where
+  name := "leveldb.BuiltinBloomFilter2x"
+  createFilter := fun keys => List.replicate (keys.length + 8) 0 ++ [1]
+  keyMayMatch := fun _ _ => false
+
 end Sst
